@@ -127,17 +127,21 @@ type JobResult struct {
 
 // Ctx is a loaded program plus accumulated results.
 type Ctx struct {
-	Property string
-	Tier     string
-	Seed     int64
-	L        *symgo.Loaded
-	Results  []*JobResult
-	t0       time.Time
-	testBins map[string]string
-	tmp      string
-	mu       sync.Mutex
-	Log      func(format string, a ...interface{})
+	Property          string
+	Tier              string
+	Seed              int64
+	L                 *symgo.Loaded
+	Results           []*JobResult
+	t0                time.Time
+	testBins          map[string]string
+	tmp               string
+	mu                sync.Mutex
+	Log               func(format string, a ...interface{})
+	extraInconclusive []string
 }
+
+// Inconclusive records a reason why the whole run decides nothing (e.g. vacuity across jobs).
+func (c *Ctx) Inconclusive(reason string) { c.extraInconclusive = append(c.extraInconclusive, reason) }
 
 func NewCtx(property, tier string, seed int64) (*Ctx, error) {
 	c := &Ctx{Property: property, Tier: tier, Seed: seed, t0: time.Now(), testBins: map[string]string{}}
@@ -669,6 +673,7 @@ func (c *Ctx) Finish(level string, assumptions []string, extra map[string]interf
 			"interp_steps": jr.Stats.Steps, "solver_time_s": jr.Stats.SolverTime.Seconds(), "wall_s": jr.Stats.Wall.Seconds(),
 		})
 	}
+	v.Inconclusive = append(v.Inconclusive, c.extraInconclusive...)
 	// unconfirmed candidates make the run inconclusive (engine or stub artefact)
 	for _, u := range v.Unconfirmed {
 		v.Inconclusive = append(v.Inconclusive, fmt.Sprintf("unconfirmed counterexample (%s %s at %s, native: %s %s) witness %s", u.Status, firstLine(u.Msg), u.Site, u.NativeStatus, firstLine(u.NativeMsg), u.Witness))
